@@ -1,11 +1,17 @@
 """Registry fragment: cache properties decided by the Ristretto.tla pipeline (checks/cache_family.py)."""
 
 _TECH = ("TLA+ design spec (Ristretto.tla) model-checked exhaustively with TLC on small configurations; TLC-generated "
-         "behaviours and counterexamples forced on the real cache through build-tag hooks (gate scheduler, testing/synctest); "
-         "recorded NDJSON traces judged by a TLA+ observer (ObsCache.tla) run by TLC")
-_NOTE = ("Trusted: TLC, the Go toolchain, testing/synctest's fake clock, the harness' event recording. Exhaustive only for the small "
-         "constants named in the evidence; larger scopes by simulation. Interleavings are explored at the grain of the verif hook points. "
-         "Exit 2 (inconclusive) on tool failure; conformance drift is reported, never a verdict.")
+         "behaviours, counterexamples and coverage-goal behaviours forced step by step on the real cache through build-tag "
+         "hooks (gate scheduler inside testing/synctest) with the abstract state compared after every step; free-running "
+         "concurrent runs (race detector, lock-boundary schedule fuzzer); every recorded NDJSON trace judged by TLA+ observers "
+         "(ObsCache.tla, ObsRef.tla) run by TLC")
+_NOTE = ("Trusted: TLC, the Go toolchain, testing/synctest's fake clock, the harness' event recording (events are appended under one "
+         "mutex; Begin before the call, End after the return, callbacks inside the callback). Exhaustive only for the small constants "
+         "named in the evidence; larger scopes by simulation and coverage goals. Deterministic interleavings are explored at the grain "
+         "of the verif hook points; windows inside a critical section are reached only probabilistically by the free-running runs "
+         "(schedule fuzzer at lock boundaries). Verdicts come only from observers over traces of the real code; exit 2 "
+         "(inconclusive) on tool failure; conformance drift is reported, never a verdict. Open known finding F9 (engineered "
+         "primary-hash collisions) is reported as KNOWN-FINDING where its signature matches.")
 
 
 def _c(text, ref):
